@@ -507,3 +507,31 @@ def c09_show_without_scope_is_account_wide():
     cur.execute("create table db2.s1.other (a int)")
     rows = [(r[3], r[4], r[1]) for r in cur.execute("show tables").fetchall() if r[3] != "_fs_global"]
     return any(r[0] != "DB1" for r in rows), f"SHOW TABLES from a session on db1.s1 lists {rows} (Snowflake: the current schema)"
+
+
+def c10_same_function_nested():
+    from vf.real import real_cursor
+
+    fs, conn, cur = real_cursor(False)
+    out = []
+    for q in (
+        "select to_decimal(to_decimal('1.239', 10, 2) * 2, 10, 1)",
+        "select try_to_number(coalesce(try_to_number('12', 5), 0)::varchar, 5)",
+        "select trim(concat(trim(12), ' '))",
+    ):
+        try:
+            cur.execute(q).fetchall()
+        except Exception as e:  # noqa: BLE001
+            out.append(f"{q}: {type(e).__name__}: {str(e)[:90]}")
+    return bool(out), "; ".join(out) or "nested calls of the same function are rewritten"
+
+
+def c11_same_function_nested():
+    from vf.real import real_cursor
+
+    fs, conn, cur = real_cursor(False)
+    got = cur.execute("select object_construct('a', object_construct('b', null, 'c', 1))").fetchall()
+    import json
+
+    doc = json.loads(got[0][0])
+    return "b" in doc.get("a", {}), f"object_construct('a', object_construct('b', null, 'c', 1)) -> {got[0][0]} (Snowflake drops the NULL pair at every depth)"
